@@ -38,13 +38,13 @@ def equal_up_to_phase(A, B, tol=1e-9):
     if abs(B[idx]) < 1e-12:
         return False
     ph = A[idx] / B[idx]
-    return abs(abs(ph) - 1) < tol and np.allclose(A, ph * B, atol=tol)
+    return abs(abs(ph) - 1) < tol and np.allclose(A, ph * B, atol=tol, rtol=0)
 
 
 def is_clifford(U):
     for P in (dense.X, dense.Z):
         Q = U @ P @ U.conj().T
-        if not any(np.allclose(Q, s * R, atol=1e-9) for s in (1, -1) for R in (dense.X, dense.Y, dense.Z)):
+        if not any(np.allclose(Q, s * R, atol=1e-9, rtol=0) for s in (1, -1) for R in (dense.X, dense.Y, dense.Z)):
             return False
     return True
 
@@ -122,7 +122,7 @@ def run_group(spec, ctx):
             ctx.violation("entry_not_clifford", case, {"entry": names[i]}, key="enum_noncliff")
         # graphiq's own matrix for the entry must be the product of the list
         G = ops.local_clifford_to_matrix_map(enum[i])
-        if not np.allclose(G, M, atol=1e-9):
+        if not np.allclose(G, M, atol=1e-9, rtol=0):
             ctx.violation("matrix_map_differs", case, {"entry": names[i]}, key="matrix_map")
     # names_to_matrix enumeration agrees in order
     lib_mats = list(ops.local_cliffords_name_to_matrix_map())
@@ -302,7 +302,7 @@ def check_wrapper(word, reg, backend, prep_i, ctx, noise_mode=None):
         got = sum(p_ * dense.projector_of_group(gq.clifford_stab_ptab(t_)) for p_, t_ in rep.mixture)
     else:
         got = dense.projector_of_group(gq.clifford_stab_ptab(rep.data))
-    if not np.allclose(got, ref, atol=1e-8):
+    if not np.allclose(got, ref, atol=1e-8, rtol=0):
         ctx.violation("wrapper_order_or_action", case,
                       {"max_abs_diff": float(np.max(np.abs(got - ref))), "word": word, "meaning": "matrix product, last listed first"},
                       key=f"wrapper_state:{backend}")
@@ -313,7 +313,7 @@ def check_wrapper(word, reg, backend, prep_i, ctx, noise_mode=None):
             text = c.to_openqasm()
             rho_q, _ = QasmProgram(text).run([])
             ctx.count("wrappers:export_read_by_standard_reader")
-            if not np.allclose(rho_q, ref, atol=1e-8):
+            if not np.allclose(rho_q, ref, atol=1e-8, rtol=0):
                 ctx.violation("exported_wrapper_denotes_another_unitary", case, {"max_abs_diff": float(np.max(np.abs(rho_q - ref))), "word": word,
                                                                                  "text_tail": text.splitlines()[-14:]}, key="wrapper_export")
         except Exception as e:
